@@ -293,7 +293,7 @@ impl Property for C10 {
     fn meta(&self) -> EvidenceMeta {
         EvidenceMeta {
             level: "exploration",
-            rule: "bit-vector transition systems (<= 10 state bits) run through parse -> [simplify] -> mc::pdr (incl. solver restart and BMC fallback) against the simulated solver, twice per system with different seeded answer policies: which model (=> which cube), which unsat core (minimal by randomised deletion / full / in between, shuffled, optionally re-spelled), which print form; both generalisation modes; check-sat-assuming and push/pop styles. Verdict compared with full-fixpoint explicit-state reachability; any Err/Unknown/panic/deadlock/step-budget overrun is a violation. Distinct by solver-choice trace (sequence of query kind, answer, core size).".into(),
+            rule: "bit-vector transition systems (<= 6 state bits, <= 5 when a configuration cannot generalise; diameter <= 10) run through parse -> [simplify] -> mc::pdr (incl. solver restart and BMC fallback) against the simulated solver, twice per system with different seeded answer policies: which model (=> which cube), which unsat core (minimal by randomised deletion / full / in between, shuffled, optionally re-spelled), which print form; both generalisation modes; check-sat-assuming and push/pop styles. Verdict compared with full-fixpoint explicit-state reachability; any Err/Unknown/panic/deadlock/step-budget overrun is a violation. Distinct by solver-choice trace (sequence of query kind, answer, core size).".into(),
             assumptions: vec![
                 "the simulated solver's answers are legal (self-validated): models satisfy all active assertions, cores are unsatisfiable".into(),
                 "step bound instead of wall clock: 1,200,000 (quick) / 6,000,000 (thorough) transport events per run".into(),
